@@ -17,7 +17,7 @@ from ..order import Interp, Model
 from ..cfg import stmt_before, EXIT, RAISE, ENTRY
 
 FILESET = "typhon/files/fileset.py"
-EXPECT = {"C10.fifo": 3, "C10.bound": 2, "C10.flush": 1, "C10.ordered": 2, "C10.args": 3, "C10.errwrap": 2, "C10.collect": 4, "C10.align": 9}
+EXPECT = {"C10.fifo": 3, "C10.bound": 2, "C10.flush": 1, "C10.ordered": 2, "C10.args": 3, "C10.errwrap": 2, "C10.collect": 4, "C10.align": 9, "C10.filenames": 1}
 
 
 def _queue_name(f):
@@ -224,6 +224,51 @@ def rule_args(ctx):
     ctx.ob("FileSet.selection", ok, "%s" % (norm(sel[0])[:80] if sel else None),
            "`if files is None: files = self.find(**find_args)` - an explicitly given EMPTY selection selects nothing (identity test, not truthiness)",
            node=sel[0] if sel else p.node, func=p)
+
+
+def rule_filenames(ctx):
+    """The worker wrapper tells a single file from a bundle by its type (FileInfo versus anything iterable).  A file NAME given through
+    `files=` is iterable too: it has to become a FileInfo before the worker tuples are built."""
+    ctx.rule("C10.filenames", "T1", "file names given through files= are converted to FileInfo before they reach the workers")
+    p = ctx.func(FILESET, "FileSet._configure_pool_and_worker_args")
+    flow = Flow(p)
+    sel = [st for st in walk_no_nested(p.node) if isinstance(st, ast.If) and str(norm(st.test)) in ("files is None", "files is not None")]
+    if len(sel) != 1:
+        raise AnalysisError("_configure_pool_and_worker_args: the decision on `files is None` was not found")
+    given = sel[0].orelse if str(norm(sel[0].test)) == "files is None" else sel[0].body
+    conv = []
+    for st in given:
+        for c_ in calls_in(st):
+            d_ = (dotted(c_.func) or "")
+            if d_.startswith("self.") and d_.split(".")[-1] not in ("find",):
+                conv.append(d_.split(".")[-1])
+            if d_.split(".")[-1] == "get_info":
+                conv.append("get_info")
+        for n_ in ast.walk(st):
+            if isinstance(n_, ast.FunctionDef):
+                conv.append(n_.name)
+    ok = False
+    how = None
+    for name in conv:
+        if name == "get_info":
+            ok, how = True, "self.get_info"
+            break
+        try:
+            h = ctx.func(FILESET, "FileSet." + name)
+        except AnalysisError:
+            continue
+        txt = ast.unparse(h.node)
+        if "get_info" in txt and ("str" in txt or "PathLike" in txt):
+            ok, how = True, "self.%s -> get_info for str / os.PathLike" % name
+            break
+    if not ok and given:
+        txt = " ".join(ast.unparse(st) for st in given)
+        ok = "get_info" in txt and ("str" in txt or "PathLike" in txt)
+        how = "inline conversion" if ok else None
+    ctx.ob("FileSet.selection.file_names", ok, "caller-given files are converted by: %s" % (how or "nothing"),
+           "every element of files= that is a str / os.PathLike becomes self.get_info(<name>) (a list of names stays a bundle of FileInfo): the docstrings allow file "
+           "names; a string was iterated character by character as a 'bundle' (unbounded recursion of thread pools in collect, AttributeError in move)",
+           node=sel[0], func=p, witness=None if ok else {"collect": "files=[<path strings>]", "observed": "RuntimeError: can't start new thread"})
 
 
 def rule_errwrap(ctx):
@@ -512,5 +557,5 @@ def rule_align(ctx):
 
 
 def run(ctx):
-    for r in (rule_fifo, rule_bound, rule_flush, rule_ordered, rule_args, rule_errwrap, rule_collect, rule_align):
+    for r in (rule_fifo, rule_bound, rule_flush, rule_ordered, rule_args, rule_errwrap, rule_collect, rule_align, rule_filenames):
         ctx.attempt(r, ctx)
